@@ -44,7 +44,8 @@ func (s *slowSink) Write(b []byte) (int, error) {
 type c03Event struct {
 	tag     int
 	payload string
-	ms      int // timestamp offset in milliseconds (events carry different times)
+	ms      int  // timestamp offset in milliseconds (events carry different times)
+	err     bool // logged at ERROR instead of INFO (the .wf file of a rolling-file logger with separate=true)
 }
 
 type c03TimeKey struct{}
@@ -60,9 +61,14 @@ func c03Payload(i int, long bool) string {
 func c03Emit(ev c03Event) {
 	ctx := context.WithValue(context.Background(), c03TimeKey{}, ev.ms)
 	// scalar, array and nested-object values: every encoder path writes into the event's own buffer
-	log.Info(ctx, c03Tags[ev.tag], log.String("k", ev.payload), log.Int("n", len(ev.payload)),
+	fs := []log.Field{log.String("k", ev.payload), log.Int("n", len(ev.payload)),
 		log.Ints("ids", []int{len(ev.payload), ev.ms}), log.Strings("who", []string{ev.payload[:3]}),
-		log.Object("o", log.String("p", ev.payload[:4]), log.Bools("b", []bool{true})))
+		log.Object("o", log.String("p", ev.payload[:4]), log.Bools("b", []bool{true}))}
+	if ev.err {
+		log.Error(ctx, c03Tags[ev.tag], fs...)
+		return
+	}
+	log.Info(ctx, c03Tags[ev.tag], fs...)
 }
 
 func c03Time(ctx context.Context) time.Time {
@@ -102,6 +108,16 @@ func (c c03Cfg) config() map[string]string {
 		m["appender.out.layout.type"] = c.layout
 		m["logger.root.type"] = "Logger"
 		m["logger.root.appenderRef.ref"] = "out"
+	case "rolling-logger", "rolling-logger+separate":
+		// the logger kind that owns its rolling appenders (the second one, for WARN and above, only with separate=true)
+		m["appender.unused.type"] = "Discard"
+		m["logger.root.type"] = "RollingFile"
+		m["logger.root.fileDir"] = "/logs"
+		m["logger.root.fileName"] = "app.log"
+		m["logger.root.rotation"] = "h"
+		m["logger.root.maxAge"] = "24"
+		m["logger.root.separate"] = fmt.Sprint(c.sink == "rolling-logger+separate")
+		m["logger.root.layout.type"] = c.layout
 	case "fanout":
 		// logger-level layout: one ToBytes, the same slice is handed to two appenders
 		m["appender.out.type"] = "Console"
